@@ -20,19 +20,19 @@ ASSUMPTIONS = ["python is not run with -O (order/duplicate guards are raise stat
 def run(project, rep):
     schema = Schema(project)
     schema.check_floors()
-    S.m1_from_etree(schema, rep)
-    S.m2_update_args(schema, rep)
-    S.m4_apply_args(schema, rep)
-    S.m5_validate_args(schema, rep)
-    F.f_r1_funnel(schema, rep)
-    F.f_r2_init(schema, rep)
+    rep.run(S.m1_from_etree, schema, rep)
+    rep.run(S.m2_update_args, schema, rep)
+    rep.run(S.m4_apply_args, schema, rep)
+    rep.run(S.m5_validate_args, schema, rep)
+    rep.run(F.f_r1_funnel, schema, rep)
+    rep.run(F.f_r2_init, schema, rep)
     rep.rule("F-R3", "inherited mutex groups are in force (S-R3) and validate_args overrides of classes with groups chain to the base (S-R6)")
-    S.s_r3_mutexes(schema, rep)
-    S.s_r6_constraints(schema, rep)
-    F.f_r4_order(schema, rep)
-    F.f_r5_counting(schema, rep)
-    T.t_r2(project, rep)
-    T.t_r3(project, rep)
-    T.t_r4(project, rep)
-    T.t_r5(project, rep)
-    T.t_r7(project, rep)
+    rep.run(S.s_r3_mutexes, schema, rep)
+    rep.run(S.s_r6_constraints, schema, rep)
+    rep.run(F.f_r4_order, schema, rep)
+    rep.run(F.f_r5_counting, schema, rep)
+    rep.run(T.t_r2, project, rep)
+    rep.run(T.t_r3, project, rep)
+    rep.run(T.t_r4, project, rep)
+    rep.run(T.t_r5, project, rep)
+    rep.run(T.t_r7, project, rep)
